@@ -90,7 +90,17 @@ fn compile_field_values<E: quiver_core::effects::Effect>(
                 } else {
                     None
                 };
+                // A narrowing recorded by this field's match must not outlive the field: the
+                // fields after it are evaluated whether or not the match succeeded.
+                let narrowings_before: Vec<_> = compiler
+                    .scopes
+                    .iter()
+                    .map(|scope| scope.narrowings.clone())
+                    .collect();
                 let type_id = compiler.compile_chain(chain.clone(), None, ripple_context_param)?;
+                for (scope, narrowings) in compiler.scopes.iter_mut().zip(narrowings_before) {
+                    scope.narrowings = narrowings;
+                }
                 compiled_values.push(CompiledValue::Field {
                     name: field.name.clone(),
                     type_id,
